@@ -1,0 +1,26 @@
+//go:build verif
+
+// Round 6, area K: nsqadmin.NewOptions - the defaults nsqadmin runs with when nothing is configured (C17 C18). Comment-only file.
+
+package nsqadmin
+
+// NewOptions (C17: "When admin users are configured ...", "the ACL header", "/config ... only from the allowed CIDR when one is
+// configured"): a NEW options object with exactly the documented defaults - NO admin user (an empty, non-nil list: every identity may
+// act until --admin-user is given), identity header "X-Forwarded-User", /config allowed from 127.0.0.1/8 (documented default of
+// --allow-config-from-cidr), no upstream address, HTTP 0.0.0.0:4171, base path "/", statsd formats, 60 s interval, client timeouts
+// 2 s / 5 s; every other option has its zero value; nothing that exists is written.
+//@ func NewOptions() *Options
+//@   props C17 C18
+//@   ensures[fresh-options] result != nil && fresh(result)
+//@   ensures[no-admin-list] len(result.AdminUsers) == 0
+//@   ensures[acl-header-x-forwarded-user] result.ACLHTTPHeader == "X-Forwarded-User"
+//@   ensures[config-from-loopback-only] result.AllowConfigFromCIDR == "127.0.0.1/8"
+//@   ensures[no-upstream-yet] len(result.NSQLookupdHTTPAddresses) == 0 && len(result.NSQDHTTPAddresses) == 0
+//@   ensures[http-defaults] result.HTTPAddress == "0.0.0.0:4171" && result.BasePath == "/"
+//@   ensures[statsd-defaults] result.StatsdPrefix == "nsq.%s" && result.StatsdCounterFormat == "stats.counters.%s.count" && result.StatsdGaugeFormat == "stats.gauges.%s" && result.StatsdInterval == 60 * time.Second
+//@   ensures[http-client-timeouts] result.HTTPClientConnectTimeout == 2 * time.Second && result.HTTPClientRequestTimeout == 5 * time.Second
+//@   ensures[log-defaults] result.LogLevel == lg.INFO && result.LogPrefix == "[nsqadmin] " && result.Logger == nil
+//@   ensures[unset-options-are-zero] !result.ProxyGraphite && result.GraphiteURL == "" && result.DevStaticDir == "" && result.NotificationHTTPEndpoint == "" && !result.HTTPClientTLSInsecureSkipVerify
+//@        && result.HTTPClientTLSRootCAFile == "" && result.HTTPClientTLSCert == "" && result.HTTPClientTLSKey == ""
+//@   modifies
+//@   nochan
